@@ -13,7 +13,7 @@ SCORE_FNS = ["spt_score", "fcfs_score", "mwkr_score", "mor_score"]
 
 
 def _n(chk, quick, thorough):
-    return thorough if chk.tier == "thorough" else quick
+    return min(thorough, 5 * quick) if chk.tier == "thorough" else quick   # thorough is capped at 5x quick: every tier must finish well inside its timeout on a shared machine
 
 
 def rule_trace(tid, beh, rng, *, rule, chooser, score_lists, solver_filters):
@@ -216,6 +216,17 @@ def cpsat_event(s, mode, rng, lb=0, ub=0, small=True, with_rules=True):
             solver = ORToolsSolver(max_time_in_seconds=1e-9)
         elif mode == "shortlimit":
             solver = ORToolsSolver(max_time_in_seconds=1.0)
+        elif mode == "relimit":
+            # the same object first used under a limit, then with the limit lifted (a public attribute): the
+            # second result "does not depend on what the same solver object solved before"
+            from job_shop_lib.exceptions import NoSolutionFoundError
+            solver = ORToolsSolver(max_time_in_seconds=1e-9)
+            try:
+                solver.solve(s.instance if rng.random() < 0.5 else model.build_instance(
+                    random_instance(rng, max_jobs=3, max_ops=3, max_m=3, flexible=False)))
+            except NoSolutionFoundError:
+                pass
+            solver.max_time_in_seconds = None
         else:
             solver = ORToolsSolver()
         if mode == "reused":
@@ -271,7 +282,7 @@ def c03():
     for i, inst in enumerate(insts):
         nops = sum(len(j) for j in inst)
         s = dsession.DSession(i + 1, inst, [])
-        for mode in ("fresh", "reused", "timelimit"):
+        for mode in ("fresh", "reused", "timelimit") + (("relimit",) if i % 4 == 0 else ()):
             cpsat_event(s, mode, rng, small=nops <= 8)
         traces.append(s.trace())
     chk.monitor(traces, source="cpsat-small-instances")
